@@ -11,7 +11,7 @@ TOL = 1e-9
 RULE = (
     "enumerated: Deutsch-Jozsa on EVERY constant and balanced truth table over 1, 2, 3 input bits x every argument shape (bool / Qint[n] / "
     "Tuple[bool..] / Qlist[bool,n]) x every syntactic form (DNF, Shannon if-expressions, xor of minterms, list lookup); Bernstein-Vazirani "
-    "on EVERY secret over 1..5 bits through secret_oracle and two independent forms (xor of selected bits, parity loop) x shapes; Simon on "
+    "on EVERY secret over 1..5 bits through secret_oracle and three independent forms (xor of selected bits, parity loop, parity through local temporaries) x shapes x both optimizers; Simon on "
     "EVERY non-zero period over 2..4 bits with 3 two-to-one functions each (relabelled representatives) x forms (lookup, bit algebra); "
     "generated: Hypothesis samples balanced tables on 4 bits and Simon relabellings. Oracle: exact output distribution from the dense "
     "state-vector simulator (tolerance 1e-9) and decode_output of the certain outcome. Non-trivial = function not constant, or constant on "
@@ -19,7 +19,7 @@ RULE = (
 )
 ASSUMPTIONS = [
     "vlib.sims dense simulator (validated against qiskit), output_qubits[j] = bit j of the outcome",
-    "the black boxes are compiled with the default settings (internal compiler, default optimizer, uncompute on)",
+    "the black boxes are compiled with the internal compiler, uncompute on, under both optimizer profiles",
 ]
 
 
@@ -43,20 +43,24 @@ def dj_tables(n):
 
 def enumerated_cases(tier):
     cases = []
+    alt = 0
     for n in (1, 2, 3):
         for t in dj_tables(n):
             for shape in algos.shapes_for(n):
                 for form in algos.forms_for(shape):
-                    cases.append({"alg": "dj", "n": n, "table": t, "shape": shape, "form": form})
+                    alt += 1
+                    for opt in (("default", "fast") if tier == "thorough" or n <= 2 else (("default", "fast")[alt % 2],)):
+                        cases.append({"alg": "dj", "n": n, "table": t, "shape": shape, "form": form, "opt": opt})
     for n in (1, 2, 3, 4, 5):
         for s in range(1 << n):
             if n >= 2:
-                cases.append({"alg": "bv", "n": n, "secret": s, "shape": "qint", "form": "secret_oracle"})
+                cases.append({"alg": "bv", "n": n, "secret": s, "shape": "qint", "form": "secret_oracle", "opt": "default"})
             for shape in algos.shapes_for(n):
                 if shape == "tuple-qint2":
                     continue
-                for form in ("xor-bits", "parity-loop"):
-                    cases.append({"alg": "bv", "n": n, "secret": s, "shape": shape, "form": form})
+                for form in ("xor-bits", "parity-loop", "parity-temps"):
+                    for opt in ("default", "fast"):
+                        cases.append({"alg": "bv", "n": n, "secret": s, "shape": shape, "form": form, "opt": opt})
     for n in (2, 3, 4):
         N = 1 << n
         for s in range(1, N):
@@ -72,7 +76,12 @@ def enumerated_cases(tier):
                 for form in ("lookup", "bits"):
                     if n == 4 and form == "bits" and tier == "quick" and k > 0:
                         continue
-                    cases.append({"alg": "simon", "n": n, "s": s, "relabel": rl, "form": form, "shape": "qint"})
+                    alt += 1
+                    cases.append({"alg": "simon", "n": n, "s": s, "relabel": rl, "form": form, "shape": "qint", "opt": ("default", "fast")[alt % 2]})
+            # a two-to-one function into a register of another type than the argument (n-1 bits are enough)
+            small = list(range(len(reps)))
+            cases.append({"alg": "simon", "n": n, "s": s, "relabel": small, "form": "lookup", "shape": "qint", "opt": "default", "ret": "narrow"})
+            cases.append({"alg": "simon", "n": n, "s": s, "relabel": small[::-1], "form": "bits", "shape": "qint", "opt": "fast", "ret": "tuple"})
     return cases
 
 
@@ -86,12 +95,12 @@ def sampled_case(draw):
         t = [1 if x in ones else 0 for x in range(N)]
         shape = draw(st.sampled_from(algos.shapes_for(n)))
         form = draw(st.sampled_from(algos.forms_for(shape)))
-        return {"alg": "dj", "n": n, "table": t, "shape": shape, "form": form}
+        return {"alg": "dj", "n": n, "table": t, "shape": shape, "form": form, "opt": draw(st.sampled_from(["default", "fast"]))}
     n = draw(st.sampled_from([3, 3, 4]))
     N = 1 << n
     s = draw(st.integers(1, N - 1))
     rl = draw(st.permutations(list(range(N))))[: N // 2]
-    return {"alg": "simon", "n": n, "s": s, "relabel": list(rl), "form": draw(st.sampled_from(["lookup", "bits"])), "shape": "qint"}
+    return {"alg": "simon", "n": n, "s": s, "relabel": list(rl), "form": draw(st.sampled_from(["lookup", "bits"])), "shape": "qint", "opt": draw(st.sampled_from(["default", "fast"]))}
 
 
 def strategy(tier):
@@ -115,6 +124,15 @@ def bv_src(case):
         if shape == "bool":
             return head + "    r = False\n    r = r ^ a\n    return r\n"
         return head + f"    r = False\n    for i in {idx}:\n        r = r ^ a[i]\n    return r\n"
+    if form == "parity-temps":
+        # the same parity written with local temporaries (they stay separate definitions under the fast optimizer)
+        if not idx:
+            return head + "    t0 = False\n    t1 = t0\n    return t1\n"
+        lines = ["    t0 = False"]
+        for j, i in enumerate(idx):
+            lines.append(f"    t{j + 1} = t{j} ^ {algos.bit_expr(i, shape)}")
+        lines.append(f"    return t{len(idx)}")
+        return head + "\n".join(lines) + "\n"
     raise ValueError(form)
 
 
@@ -134,7 +152,7 @@ def judge(case):  # noqa: C901
     from qlasskit.algorithms import BernsteinVazirani, DeutschJozsa, Simon, secret_oracle
 
     alg, n = case["alg"], case["n"]
-    feats = [f"alg:{alg}", f"n:{n}", "shape:" + case["shape"], "form:" + case["form"]]
+    feats = [f"alg:{alg}", f"n:{n}", "shape:" + case["shape"], "form:" + case["form"], "opt:" + case.get("opt", "default")]
     try:
         if alg == "dj":
             src = algos.bool_function_src("f", case["table"], n, case["shape"], case["form"])
@@ -142,7 +160,19 @@ def judge(case):  # noqa: C901
             src = f"secret_oracle({n}, {case['secret']})" if case["form"] == "secret_oracle" else bv_src(case)
         else:
             table = simon_table(case)
-            src = algos.int_function_src("f", table, n, n, case["shape"], case["form"])
+            rk = case.get("ret", "same")
+            if rk == "same":
+                src = algos.int_function_src("f", table, n, n, case["shape"], case["form"])
+            elif n == 2:
+                # two classes -> one output bit
+                src = algos.bool_function_src("f", [v & 1 for v in table], n, case["shape"], "shannon" if case["form"] == "bits" else "lookup")
+            elif rk == "narrow":
+                src = algos.int_function_src("f", table, n, n - 1, case["shape"], case["form"])
+            else:
+                # Tuple[bool, ...] result built bit by bit
+                m = n - 1
+                parts = [algos.bool_body([(v >> k_) & 1 for v in table], n, case["shape"], "shannon") for k_ in range(m)]
+                src = f"def f(a: {algos.arg_decl(n, case['shape'])}) -> Tuple[" + ", ".join(["bool"] * m) + "]:\n    return (" + ", ".join(parts) + ")\n"
     except ValueError:
         return {"status": "skip", "nontrivial": False, "features": feats + ["form-not-applicable"]}
     D = {"src": src, "case": {k: v for k, v in case.items() if k != "table"} if alg != "dj" else case}
@@ -151,7 +181,7 @@ def judge(case):  # noqa: C901
             if alg == "bv" and case["form"] == "secret_oracle":
                 qf = secret_oracle(n, case["secret"])
             else:
-                qf = qlassf(src, to_compile=True)
+                qf = qlassf(src, to_compile=True, bool_optimizer=progeval.optimizer(case.get("opt", "default")))
             A = {"dj": DeutschJozsa, "bv": BernsteinVazirani, "simon": Simon}[alg](qf)
     except progeval.Timeout:
         return {"status": "skip", "nontrivial": False, "features": feats + ["timeout"]}
